@@ -61,3 +61,10 @@ package inverted
 //@ lemma f64_injective(k1 uint64, k2 uint64): validF64Key(k1) && validF64Key(k2) && decF64(k1) == decF64(k2) ==> k1 == k2
 //@   property C19 C02
 //@   arith bv
+
+// Byte-wise (bytes.Compare) order of two 8-byte keys, as used by the bucket cursors.
+//@ spec lexLess8(a []byte, b []byte) bool = exists(k, 0, 8, forall(j, 0, k, a[j] == b[j]) && a[k] < b[k])
+
+//@ lemma be64_order(a []byte, b []byte): lexLess8(a, b) == (be64at(a, 0) < be64at(b, 0))
+//@   property C19 C02
+//@   arith bv
